@@ -41,6 +41,28 @@ GROUPS = [
     # ExplicitX / ExplicitY branches of Repetition::transform: (history)  CBMC mis-evaluates a[GK] when the pointer a is
     # loaded from a union member (Repetition.coords.items): the tautology GK == 1 ==> a[GK] == a[1] FAILS (DESIGN.md 9.8).
 ]
+def RP(name, fn, replace=(), **kw):
+    d = dict(name='rpath_' + name, tu='src/robustpath.cpp', spec_headers=['spec/ghost.h', 'spec/geom_spec.h', 'spec/rpath_spec.h'],
+             models=['models/libm_contracts.h'], harness='harness/c10_rpath.c', roots=['gdstk::RobustPath::' + fn],
+             entry='h_rpath_' + name, enforce='RobustPath__' + fn, replace=list(replace), replace_extern=['cos', 'sin', 'fabs'],
+             defines={'VF_FABS_CONTRACT': 1}, kind='unbounded', unwind=None, timeout=900, tier='quick', uf_fp=True,
+             bound='loop-free: all matrices, all doubles' if fn != 'simple_scale' else 'none: loop contract over any number of path elements (up to 2^20), arbitrary element index')
+    d.update(kw)
+    return d
+
+
+SS = 'RobustPath__simple_scale/RobustPath__simple_scale_m'
+GROUPS += [
+    RP('translate', 'translate', replace_extern=[]),
+    RP('x_reflection', 'x_reflection', replace_extern=[]),
+    RP('simple_rotate', 'simple_rotate', replace_extern=['cos', 'sin']),
+    RP('simple_scale', 'simple_scale', replace_extern=['fabs']),
+    # callers: verified against the callees' CONTRACTS (bodies dropped)
+    RP('scale', 'scale', replace=[SS, 'RobustPath__translate'], replace_extern=[], loop_contracts_for=[]),
+    RP('rotate', 'rotate', replace=['RobustPath__simple_rotate', 'RobustPath__translate'], replace_extern=[], loop_contracts_for=[]),
+    RP('transform', 'transform', replace=[SS, 'RobustPath__x_reflection', 'RobustPath__simple_rotate', 'RobustPath__translate'],
+       replace_extern=[], loop_contracts_for=[]),
+]
 TRUSTED_BASE = ['clang 14 AST', 'tools/cxx2c.py lowering', 'cbmc 6.11.0 (dfcc + SAT)', 'side-car contracts; spec/geom_spec.h']
 ASSUMPTIONS = ['cos and sin and the double operations + - * are uninterpreted functions (sound over-approximation: what holds for arbitrary functions holds for IEEE arithmetic)',
                'equality with the affine map is bit-exact against one canonical evaluation order (a re-association of the floating-point operations would be reported)']
